@@ -1,6 +1,6 @@
 #!/bin/bash
 # Runs every claimed check (quick tier by default) and prints one line each.
-cd /verif
+cd "$(dirname "$0")/.."
 tier=${1:-quick}
 for p in $(python3 -c "import json;print(' '.join(c['property_id'] for c in json.load(open('MANIFEST.json'))['checks']))"); do
   t0=$(date +%s); out=$(./check $p --tier $tier 2>&1); rc=$?; t1=$(date +%s)
